@@ -1,5 +1,6 @@
 import RtenVerif.Driver.Util
 import RtenVerif.Model.Npy
+import RtenVerif.Model.Safetensors
 
 /-! Line-protocol driver for C34 (`model_C34`). Byte strings travel as lower-case hex, `-` = empty. -/
 namespace RtenVerif.Driver.C34
@@ -94,6 +95,29 @@ def handle (line : String) : String :=
       | some f => "some " ++ hex f
       | none => "none"
     | none => "bad-request"
+  | ["stenc", dt, dims, strides, data] =>
+    match parseDt dt, parseDims dims, parseDims strides, unhex data with
+    | some dt, some sh, some st, some bytes =>
+      let n := bytes.length / dt.itemSize
+      let storage := (chunks dt.itemSize n bytes).map fromLE
+      let v : SView := ⟨storage, sh, st⟩
+      s!"contig={b01 (isContig sh st)} data={hex (stToLeBytes dt v)}"
+    | _, _, _, _ => "bad-request"
+  | ["stdec", dt, data] =>
+    match parseDt dt, unhex data with
+    | some dt, some bytes =>
+      "vals=" ++ hex (((stFromLeBytes dt bytes).map (encodeElem dt)).flatten)
+    | _, _ => "bad-request"
+  | ["stdtype", name] =>
+    match StDtype.all.find? (fun d => d.name = name) with
+    | none => "err:other"
+    | some d => match dataTypeFromSafetensors d with
+      | some dt => "ok " ++ dt.name
+      | none => "err:unsupported"
+  | ["tfd", dims, n] =>
+    match parseDims dims, n.toNat? with
+    | some sh, some n => b01 (tryFromDataOk sh n)
+    | _, _ => "bad-request"
   | ["utf8", h] =>
     match unhex h with
     | some b => b01 (validUtf8 b)
